@@ -190,7 +190,21 @@ fn pack_event(map: &IndexMap<String, Vec<u8>>, mode: &str) -> Value {
         Err(e) => json!({"mode": mode, "src": "random", "value": value, "ser": e.to_string(), "bytes": [], "parsed": {"ok": false, "v": []}}),
     }
 }
-fn pack_record(out_path: &str, runs: usize, max_files: usize, big: bool) {
+/// A map with `n` files, almost all empty (cheap to validate), a few non-empty ones sprinkled in.
+fn pack_many_files(rng: &mut Rng, n: usize) -> IndexMap<String, Vec<u8>> {
+    let mut map: IndexMap<String, Vec<u8>> = IndexMap::new();
+    for i in 0..n {
+        let name = if i % 1000 == 7 { format!("あ{}", i) } else { format!("f{}", i) };
+        let body = if i % 997 == 3 || i + 1 == n { let len = pack_random_len(rng).max(1); rng.bytes(len) } else { Vec::new() };
+        map.insert(name, body);
+    }
+    map
+}
+/// file counts around the powers of two where a narrower integer or a shifted count would wrap
+const PACK_COUNT_BOUNDS: &[usize] = &[255, 256, 257, 4095, 4096, 4097, 20000];
+
+fn pack_record(out_path: &str, runs: usize, max_files: usize, flags: &[&str]) {
+    let big = flags.contains(&"big");
     let mut rng = Rng::new(seed_from_env());
     let mut out = NdWriter::create(out_path);
     for run in 0..runs {
@@ -219,6 +233,12 @@ fn pack_record(out_path: &str, runs: usize, max_files: usize, big: bool) {
             map.insert(name, body);
         }
         out.put(&pack_event(&map, "full"));
+    }
+    if flags.contains(&"bounds") {
+        for n in PACK_COUNT_BOUNDS {
+            let map = pack_many_files(&mut rng, *n);
+            out.put(&pack_event(&map, "full"));
+        }
     }
     if big {
         // the statement's upper limit: 65 535 (empty) files
@@ -990,8 +1010,9 @@ fn main() {
     match a.as_slice() {
         ["pack-replay", cases, out] => pack_replay(cases, out, &format!("{}.events", out)),
         ["pack-replay", cases, out, events] => pack_replay(cases, out, events),
-        ["pack-record", out, runs, max_files] => pack_record(out, runs.parse().unwrap(), max_files.parse().unwrap(), false),
-        ["pack-record", out, runs, max_files, "big"] => pack_record(out, runs.parse().unwrap(), max_files.parse().unwrap(), true),
+        ["pack-record", out, runs, max_files, flags @ ..] if flags.iter().all(|f| ["big", "bounds"].contains(f)) => {
+            pack_record(out, runs.parse().unwrap(), max_files.parse().unwrap(), flags)
+        }
         ["arc-replay", cases, out] => arc_replay(cases, out),
         ["arc-record", out, runs, max_files] => arc_record(out, runs.parse().unwrap(), max_files.parse().unwrap()),
         ["aset-replay", cases, out] => aset_replay(cases, out),
@@ -999,7 +1020,7 @@ fn main() {
         ["asset-replay", cases, out] => asset_replay(cases, out),
         ["asset-record", out, runs, max_specs] => asset_record(out, runs.parse().unwrap(), max_specs.parse().unwrap()),
         _ => usage(
-            "mvh_cont <pack|arc|aset|asset>-replay <cases> <out> | pack-record <out> <runs> <max_files> [big] | \
+            "mvh_cont <pack|arc|aset|asset>-replay <cases> <out> | pack-record <out> <runs> <max_files> [bounds] [big] | \
              arc-record <out> <runs> <max_files> | aset-record <out> <runs> <max_sets> | asset-record <out> <runs> <max_specs>",
         ),
     }
